@@ -104,11 +104,11 @@ def run_impl(case):
             try:
                 v = h(float(Fraction(op[1])))
                 v = np.array(v, dtype=np.float64).reshape(-1)
-                out.append([q2s(fl2q(x)) for x in v])
+                out.append([C.f2s((x)) for x in v])
             except Exception as e:
                 out.append(f"raise:{type(e).__name__}")
         elif op[0] == "abs":
-            out.append([[q2s(fl2q(h._t[i])), [q2s(fl2q(x)) for x in np.array(h._y[i], dtype=np.float64).reshape(-1)]]
+            out.append([[C.f2s((h._t[i])), [C.f2s((x)) for x in np.array(h._y[i], dtype=np.float64).reshape(-1)]]
                         for i in range(h._n)])
     return out, int(type(h)._INITIAL_CAPACITY), int(type(h)._GROW_FACTOR)
 
